@@ -45,7 +45,7 @@ def build(x):
     st.text = '#[verifier::reject_recursive_types(It)]\n' + st.text
     pieces.append(st)
     nx = x.method(F, 'IteratorSource', 'next', trait='Operator')
-    nx.replace_exact('V-TRAIT', 'StreamElement<Self::Out>', 'StreamElement<It::Item>', detail='associated type Out substituted by its definition')
+    nx.replace_exact('V-TRAIT', 'StreamElement<Self::Out>', 'StreamElement<It::Item>', detail='associated type Out substituted by its definition', count=None)
     nx.name_result('r')
     nx.add_spec(SPEC)
     rp = x.method(F, 'IteratorSource', 'replication', trait='Source')
